@@ -14,6 +14,7 @@
 -/
 import QlibcModel.Str.Model
 import QlibcModel.Str.SpecMore
+import QlibcModel.Generated.FmtMacro
 
 namespace Qlibc.Str
 open Qlibc
@@ -157,32 +158,59 @@ def qstrIsEmail (buf : Bytes) : Except Fault Bool := do
 
 /-! ### qstrdupf, qstrcatf -/
 
-/-- `DYNAMIC_VSPRINTF(s, f)`: blocks of 1024, 2048, … bytes are tried until the formatted text
-    `out` (what `vsnprintf` produces for the format and arguments) fits with its terminator.
+/-- `vsnprintf(s, size, …)` for the formatted text `out` (a libc call, modelled by its
+    definition as one block update): the first `size - 1` bytes and a terminator are stored at the
+    start of the block; with `size = 0` nothing is stored (the return value is `|out|` always).
+    A block shorter than `size` would be overrun. -/
+def vsnStore (blk out : Bytes) (size : Nat) : Except Fault Bytes :=
+  if size = 0 then pure blk
+  else if (out.take (size - 1) ++ [0]).length ≤ blk.length then
+    pure (out.take (size - 1) ++ [0] ++ blk.drop (out.take (size - 1) ++ [0]).length)
+  else .error .oob
+
+/-- `DYNAMIC_VSPRINTF(s, f)`: `for (_strsize = START; ; _strsize *= FACTOR)` — a block of
+    `_strsize` bytes is allocated, the text `out` (what `vsnprintf` produces for the format and
+    arguments) is formatted into it, and the block is accepted when `_n >= 0 && _n < _strsize`,
+    otherwise freed. START and FACTOR come from the macro text (`Generated/FmtMacro.lean`).
     Returns the final block and the sizes that were allocated. -/
-def dynVsprintf (out : Bytes) : (fuel : Nat) → (size : Nat) → (allocs : List Nat) →
+def dynVsprintf (factor : Nat) (out : Bytes) : (fuel : Nat) → (size : Nat) → (allocs : List Nat) →
     Except Fault (Bytes × List Nat)
   | 0, _, _ => .error .outOfFuel
   | fuel + 1, size, allocs => do
-    let blk := List.replicate size fillByte                -- malloc(_strsize)
-    let blk ← wrN blk 0 (out.take (size - 1) ++ [0])        -- vsnprintf(s, _strsize, …)
-    if out.length < size then pure (blk, allocs ++ [size])  -- _n >= 0 && _n < _strsize
-    else dynVsprintf out fuel (size * 2) (allocs ++ [size]) -- free(s)
+    let blk ← vsnStore (List.replicate size fillByte) out size   -- malloc; vsnprintf
+    if out.length < size then pure (blk, allocs ++ [size])       -- _n >= 0 && _n < _strsize
+    else dynVsprintf factor out fuel (size * factor) (allocs ++ [size])   -- free(s)
 
-/-- `qstrdupf(format, …)`: the `strdup` of the formatted text (exactly `strlen + 1` bytes) -/
-def qstrdupf (out : Bytes) : Except Fault (Bytes × List Nat) := do
-  let (str, allocs) ← dynVsprintf out (out.length + 1) 1024 []
-  let n ← nulPos str 0
-  let dup ← rdN str 0 (n + 1)
-  pure (dup, allocs)
+/-- `strlen(buf + i)` as one library call (no terminator inside the block = read past its end) -/
+def strlenAt (buf : Bytes) (i : Nat) : Except Fault Nat :=
+  if i + ((buf.drop i).takeWhile (· != 0)).length < buf.length
+  then pure ((buf.drop i).takeWhile (· != 0)).length else .error .oob
 
-/-- `qstrcatf(str, format, …)`: `strcat(str, buf)` into the caller's block -/
-def qstrcatf (dst out : Bytes) : Except Fault (Bytes × List Nat) := do
-  let (buf, allocs) ← dynVsprintf out (out.length + 1) 1024 []
-  let d ← nulPos dst 0                                     -- end of the old content
-  let n ← nulPos buf 0
-  let data ← rdN buf 0 (n + 1)
-  let dst ← wrN dst d data
+/-- store `data` at offset `d` as one block update (the effect of a libc copy such as the one
+    `strcat` performs); beyond the end of the block it is an overrun -/
+def storeAt (buf : Bytes) (d : Nat) (data : Bytes) : Except Fault Bytes :=
+  if d + data.length ≤ buf.length then pure (buf.take d ++ data ++ buf.drop (d + data.length))
+  else .error .oob
+
+/-- `qstrdupf(format, …)` with the loop parameters given: the `strdup` of the formatted text -/
+def qstrdupfG (start factor : Nat) (out : Bytes) : Except Fault (Bytes × List Nat) := do
+  let (str, allocs) ← dynVsprintf factor out (out.length + 1) start []
+  let n ← strlenAt str 0                                   -- strdup(str)
+  pure (str.take (n + 1), allocs)
+
+/-- `qstrcatf(str, format, …)` with the loop parameters given: `strcat(str, buf)` into the
+    caller's block -/
+def qstrcatfG (start factor : Nat) (dst out : Bytes) : Except Fault (Bytes × List Nat) := do
+  let (buf, allocs) ← dynVsprintf factor out (out.length + 1) start []
+  let d ← strlenAt dst 0                                   -- end of the old content
+  let n ← strlenAt buf 0
+  let dst ← storeAt dst d (buf.take (n + 1))
   pure (dst, allocs)
+
+/-- the routines as compiled from the current macro text -/
+def qstrdupf (out : Bytes) : Except Fault (Bytes × List Nat) :=
+  qstrdupfG Generated.fmtStartSize Generated.fmtGrowFactor out
+def qstrcatf (dst out : Bytes) : Except Fault (Bytes × List Nat) :=
+  qstrcatfG Generated.fmtStartSize Generated.fmtGrowFactor dst out
 
 end Qlibc.Str
